@@ -167,3 +167,84 @@ sources.mains = [__$main]"#;
     );
   }
 }
+
+#[cfg(samlang_verif)]
+pub mod verif_hooks {
+  //! Verification hooks (add-only, compiled only with `--cfg samlang_verif`):
+  //! private kernels and single-pass entry points for pass-by-pass equivalence checking.
+  use samlang_ast::{hir::BinaryOperator, mir};
+
+  pub fn evaluate_bin_op(operator: BinaryOperator, v1: i32, v2: i32) -> Option<i32> {
+    super::conditional_constant_propagation::verif_hooks::evaluate_bin_op(operator, v1, v2)
+  }
+
+  pub fn merge_binary_expression(
+    outer_operator: BinaryOperator,
+    inner_operator: BinaryOperator,
+    inner_const: i32,
+    outer_const: i32,
+  ) -> Option<(BinaryOperator, i32)> {
+    super::conditional_constant_propagation::verif_hooks::merge_binary_expression(
+      outer_operator,
+      inner_operator,
+      inner_const,
+      outer_const,
+    )
+  }
+
+  /// `operator`: 0 = LT, 1 = LE, 2 = GT, 3 = GE.
+  pub fn analyze_number_of_iterations_to_break_guard(
+    initial_guard_value: i32,
+    guard_increment_amount: i32,
+    operator: u8,
+    guarded_value: i32,
+  ) -> Option<i32> {
+    super::loop_algebraic_optimization::verif_hooks::analyze_number_of_iterations_to_break_guard(
+      initial_guard_value,
+      guard_increment_amount,
+      operator,
+      guarded_value,
+    )
+  }
+
+  pub const FUNCTION_PASSES: [&str; 7] = ["ccp", "sr", "loop", "cse", "lvn", "dce", "rounds"];
+
+  /// Runs one named per-function pass (or the full per-function round driver) on one function.
+  pub fn run_pass(
+    name: &str,
+    function: &mut mir::Function,
+    counter: &samlang_heap::TempPStrCounter,
+    configuration: &super::OptimizationConfiguration,
+  ) -> bool {
+    match name {
+      "ccp" => super::conditional_constant_propagation::optimize_function(function),
+      "sr" => super::scalar_replacement::optimize_function(function),
+      "loop" => super::loop_optimizations::optimize_function(function, counter),
+      "cse" => super::common_subexpression_elimination::optimize_function(function, counter),
+      "lvn" => super::local_value_numbering::optimize_function(function),
+      "dce" => super::dead_code_elimination::optimize_function(function),
+      "rounds" => super::optimize_function_for_rounds(function, counter, configuration),
+      _ => return false,
+    }
+    true
+  }
+
+  /// Whole-program passes: "inline", "unused".
+  pub fn run_pass_sources(
+    name: &str,
+    heap: &mut samlang_heap::Heap,
+    mut sources: mir::Sources,
+  ) -> Option<mir::Sources> {
+    match name {
+      "inline" => {
+        sources.functions = super::inlining::optimize_functions(sources.functions, heap);
+        Some(sources)
+      }
+      "unused" => {
+        super::unused_name_elimination::optimize_sources(&mut sources);
+        Some(sources)
+      }
+      _ => None,
+    }
+  }
+}
